@@ -474,7 +474,7 @@ func show(regs []rt.Reg) string {
 var ops = []string{
 	"valid", "valid", "valid", "break-grammar", "unknown-method", "routes-list", "question-sibling", "repeat", "repeat-short-form", "plain-after-optional",
 	"optional-after-plain", "dup-bind-across", "dup-bind-inside", "inner-optional", "inner-empty", "second-mid-matchall",
-	"matchall-clash", "bad-expression", "single-optional", "metachar-literal", "unclassified", "shared-mid-matchall",
+	"matchall-clash", "bad-expression", "single-optional", "metachar-literal", "unclassified", "shared-mid-matchall", "option-names-as-binds",
 }
 
 var badExprs = []string{"[", "(", "a)(b", "*", "a{2,1}", "[z-a]", "(?P<x", "x**", "\\", "a(?", ")"}
@@ -505,6 +505,14 @@ func genCase(t *rapid.T) Case {
 	d := fresh()
 	switch op {
 	case "valid":
+	case "option-names-as-binds":
+		// "capture", "route" and "withOptional" are words the route syntax or the
+		// URL builder use; as bind names they are names like any other, also
+		// behind a match-all that carries a capture limit
+		d = rt.Deriv([]string{
+			"/on1/{p: **, capture: 2}/{capture}", "/on2/{p: **, capture: 3}/x/{capture: /[0-9]+/}", "/on3/{capture}/{q: **, capture: 1}/end",
+			"/on4/{p: **, capture: 2}/?{capture}", "/on5/{route}/{withOptional}", "/on6/{capture: **, capture: 2}/tail",
+		}[rapid.IntRange(0, 5).Draw(t, "optname")])
 	case "break-grammar":
 		b := []byte(d.Source())
 		hot := []byte("{}:,? \t#[/")
